@@ -122,6 +122,8 @@ func (t *Tokenizer) Load(r io.Reader, handler TokenHandler) (err error) {
 		if err != nil {
 			return
 		}
+		// The next buffer starts this many bytes further into the stream.
+		t.noff -= len(buf) - skip
 		skip = 0
 		if eof {
 			break
